@@ -72,6 +72,51 @@ theorem i32_minmax_range_partial (min max : ℤ) (v : ℚ) (h : min < max) (h0 :
       _ = ((max - min : ℤ) : ℚ) := by ring
   constructor <;> omega
 
+/-- `i32_minmax` under the standard model of one IEEE rounding (round to nearest: relative error at
+most 2⁻²⁴ for binary32), for ranges the f32 holds exactly (`max − min < 2²⁴`): the rounded product
+still truncates to a value in `[0, max − min)`, so the result lies in `[min, max)`.  The raw 24-bit
+fraction `k / 2²⁴` is exact in binary32. -/
+theorem i32_minmax_range_rounded (min max : ℤ) (k : ℕ) (P : ℚ) (hlt : min < max) (hsmall : max - min < 2 ^ 24)
+    (hk : k < 2 ^ 24)
+    (hround : |P - ((max - min : ℤ) : ℚ) * ((k : ℚ) / 2 ^ 24)| ≤
+      (1 / 2 ^ 24) * |((max - min : ℤ) : ℚ) * ((k : ℚ) / 2 ^ 24)|) :
+    min ≤ min + ⌊P⌋ ∧ min + ⌊P⌋ < max := by
+  set D : ℚ := ((max - min : ℤ) : ℚ) with hD
+  have hDpos : 0 < D := by rw [hD]; exact_mod_cast (by omega : (0 : ℤ) < max - min)
+  set v : ℚ := (k : ℚ) / 2 ^ 24 with hv
+  have hv0 : 0 ≤ v := by rw [hv]; positivity
+  have hv1 : v ≤ 1 - 1 / 2 ^ 24 := by
+    rw [hv, div_le_iff₀ (by positivity)]
+    have : (k : ℚ) ≤ 2 ^ 24 - 1 := by
+      have : k + 1 ≤ 2 ^ 24 := hk
+      exact_mod_cast (by omega : (k : ℤ) ≤ 2 ^ 24 - 1)
+    norm_num at this ⊢; linarith
+  have hx0 : 0 ≤ D * v := by positivity
+  rw [abs_of_nonneg hx0] at hround
+  have hPle : P ≤ D * v * (1 + 1 / 2 ^ 24) := by
+    have := (abs_le.mp hround).2; linarith
+  have hPge : 0 ≤ P := by
+    have := (abs_le.mp hround).1
+    have : D * v * (1 - 1 / 2 ^ 24) ≤ P := by linarith
+    have h2 : 0 ≤ D * v * (1 - 1 / 2 ^ 24) := by
+      apply mul_nonneg hx0; norm_num
+    linarith
+  have hPlt : P < D := by
+    have h1 : D * v * (1 + 1 / 2 ^ 24) ≤ D * (1 - 1 / 2 ^ 24) * (1 + 1 / 2 ^ 24) := by
+      apply mul_le_mul_of_nonneg_right _ (by norm_num)
+      exact mul_le_mul_of_nonneg_left hv1 hDpos.le
+    have h2 : D * (1 - 1 / 2 ^ 24) * (1 + 1 / 2 ^ 24) < D := by
+      have : (1 - 1 / 2 ^ 24 : ℚ) * (1 + 1 / 2 ^ 24) < 1 := by norm_num
+      calc D * (1 - 1 / 2 ^ 24) * (1 + 1 / 2 ^ 24) = D * ((1 - 1 / 2 ^ 24) * (1 + 1 / 2 ^ 24)) := by ring
+        _ < D * 1 := mul_lt_mul_of_pos_left this hDpos
+        _ = D := by ring
+    linarith
+  have hfl0 : 0 ≤ ⌊P⌋ := Int.floor_nonneg.mpr hPge
+  have hfl1 : ⌊P⌋ < max - min := by
+    rw [Int.floor_lt]; rw [hD] at hPlt; exact hPlt
+  constructor <;> omega
+
+
 /-- `f32_minmax` / `f64_minmax` in exact arithmetic: never leave [min, max] -/
 theorem fminmax_range {α : Type} [Field α] [LinearOrder α] [IsStrictOrderedRing α]
     (min max v : α) (h : min < max) (h0 : 0 ≤ v) (h1 : v < 1) :
